@@ -146,6 +146,9 @@ def gjk_nesterov_accelerated(
                 momentum = (i + 1) / (i + 3)
                 y = momentum * ray + (1.0 - momentum) * support_point
                 ray_dir = momentum * ray_dir + (1.0 - momentum) * y
+            if not ray_dir.any():
+                # momentum cancelled the search direction exactly
+                ray_dir = ray
         else:
             ray_dir = ray
 
